@@ -110,6 +110,32 @@ def _rewrite_unwrap_or_else(text, kinds, log):
     return text
 
 
+def _rewrite_abortable(text, spec, log):
+    """R15: `Abortable::new(async move { BODY }, REG).instrument(SPAN).await` becomes the two-outcome
+    model of futures::future::Abortable (A-abortable): either the registration fires (Err(Aborted),
+    BODY not run to completion) or BODY -- moved unchanged into a named async fn -- runs to completion.
+    Returns (text, body_text)."""
+    m = rl.mask(text)
+    hit = re.search(r'Abortable::new\(\s*async move \{', m)
+    if not hit:
+        raise ExtractError('R15: no `Abortable::new(async move {` found')
+    bo = hit.end() - 1
+    bc = rl.match_bracket(m, bo)
+    po = m.index('(', hit.start())
+    pc = rl.match_bracket(m, po)
+    reg = text[bc + 1:pc].strip().strip(',').strip()
+    tail = re.match(r'\s*\.instrument\((\w+)\)\s*\.await', m[pc + 1:])
+    if not tail:
+        raise ExtractError('R15: expected `.instrument(span).await` after Abortable::new(..)')
+    end = pc + 1 + tail.end()
+    body = text[bo:bc + 1]
+    new = 'if %s.aborted() { Err(Aborted) } else { Ok(Self::%s(%s).await) }' % (reg, spec['name'], spec['call_args'])
+    text = text[:hit.start()] + new + text[end:]
+    log.append(dict(rule='R15:abortable', part='body', count=1, matched=['Abortable::new(async move {..}, %s).instrument(..).await' % reg],
+                    replaced_by=new, why='A-abortable: two-outcome model (aborted | ran to completion); the async block becomes a named async fn with its body unchanged; .instrument(span) only attaches the span (A-tracing)'))
+    return text, body
+
+
 def _expand_ready(text, log):
     """R13: `ready!(E)` (futures::ready) written out as its definition, so that ghost arguments
     inside E are seen by the Verus syntax macro."""
@@ -241,6 +267,8 @@ class Fn:
     hoist_contracts: Optional[dict] = None   # contracts for fns of hoisted impls: name -> 'ensures ...' text
     inherited_ensures: str = ''   # ensures clauses inherited from the trait declaration (counted as obligations of this fn)
     unwrap_or_else: List[str] = field(default_factory=list)   # R8b: 'Option'/'Result' per occurrence
+    abortable: Optional[dict] = None   # R15: dict(name, params, call_args, ret, requires, ensures, fx, tags)
+    drops_at_end: List[str] = field(default_factory=list)   # R14: locals with a contracted Drop, dropped explicitly at the end of the body
 
 
 @dataclass
@@ -636,6 +664,19 @@ def build_unit(unit: Unit, outdir, repo=None):
             except rl.LexError as ex:
                 raise ExtractError('%s: %s' % (f.name, ex))
             lifted.append((lift, cbody))
+        # ---- R15 / R14
+        abort_body = None
+        if f.abortable:
+            body = _drop_macro_calls(body, log)
+            try:
+                body, abort_body = _rewrite_abortable(body, f.abortable, log)
+            except rl.LexError as ex:
+                raise ExtractError('%s: %s' % (f.name, ex))
+        for local in f.drops_at_end:
+            k = body.rstrip().rfind('}')
+            body = body[:k] + '    %s.drop(Tracked(fx));\n    ' % local + body[k:]
+            log.append(dict(rule='R14:explicit-drop', part='body', count=1, matched=[local], replaced_by='%s.drop(..) at the end of the body' % local,
+                            why='Rust drops the local there; Verus does not model implicit Drop calls'))
         # ---- body
         if f.unwrap_or_else:
             body = _drop_macro_calls(body, log)
@@ -654,6 +695,11 @@ def build_unit(unit: Unit, outdir, repo=None):
             for k, v in c2.items():
                 counts[k] = counts.get(k, 0) + v
             lifted2.append((lift, cbody))
+        abody_done = None
+        if abort_body is not None:
+            abody_done, c3 = process_body(abort_body, f, log, 'lifted')
+            for k, v in c3.items():
+                counts[k] = counts.get(k, 0) + v
         for r in f.rules:
             check_expect(r, counts.get(id(r), 0), f.name)
         try:
@@ -707,6 +753,18 @@ def build_unit(unit: Unit, outdir, repo=None):
                 entry['canary_lines'] = [ca, cb]
         fn_table.append(entry)
         prov['items'].append(dict(kind='fn', **{k: entry[k] for k in ('name', 'impl', 'src', 'src_lines', 'sha256', 'gen_lines', 'rule_applications')}))
+        if abort_body is not None:
+            ab = f.abortable
+            abody = abody_done
+            ahead = 'async fn %s%s(%s%s)' % (ab['name'], ab.get('generics', ''), ab['params'], (', Tracked(fx): Tracked<&mut %s>' % fx_type) if ab.get('fx') else '')
+            la, lb = gen.add(render(ahead, ab.get('ret'), 'r', '', ab.get('requires', ''), ab.get('ensures', ''), abody))
+            aentry = dict(name=qname + '{async-block:' + ab['name'] + '}', emit_name=ab['name'], impl=impl_header, src=f.src,
+                          src_lines=entry['src_lines'], sha256=entry['sha256'], gen_lines=[la, lb], tags=ab.get('tags', 'core'),
+                          ensures_tags=_clauses(ab.get('ensures', '')), requires_tags=_clauses(ab.get('requires', '')), invariant_tags=[],
+                          hint_asserts=0, rule_applications=[], canary_lines=None)
+            ca, cb = gen.add(render(ahead.replace('fn ' + ab['name'], 'fn ' + ab['name'] + '__canary', 1), ab.get('ret'), 'r', '', ab.get('requires', ''), 'false, // @canary\n', abody))
+            aentry['canary_lines'] = [ca, cb]
+            fn_table.append(aentry)
         for lift, cbody in lifted2:
             lhead = 'fn %s%s(%s%s)' % (lift.name, lift.generics, lift.params,
                                         (', Tracked(fx): Tracked<&mut %s>' % fx_type) if lift.fx else '')
